@@ -9,11 +9,11 @@ package rec
 import (
 	"bytes"
 	"errors"
+	"fmt"
+	"io"
 	"runtime"
 	"strconv"
 	"strings"
-	"fmt"
-	"io"
 	"sync"
 
 	sasl "github.com/emersion/go-sasl"
@@ -111,9 +111,9 @@ type Backend struct {
 	calls []Call
 	nsess int
 	nxfer int
-	busy  int // Data callbacks in flight
-	inRd  int // of those, how many are inside r.Read right now
-	rdG   map[int64]int // goroutine ids currently inside r.Read
+	busy  int                // Data callbacks in flight
+	inRd  int                // of those, how many are inside r.Read right now
+	rdG   map[int64]int      // goroutine ids currently inside r.Read
 	begun map[*smtp.Conn]int // Data/LMTPData callbacks begun, per connection
 
 	// Static shape of the sessions handed out.
@@ -126,11 +126,11 @@ type Backend struct {
 	NewSessionErrs []error
 	MailErrs       []error
 	RcptErrs       []error
-	PanicIn        string // "Mail", "Rcpt", "NewSession": the next such call panics (one shot)
-	DataPlans     []DataPlan // consumed in order by Data begin; default plan when empty
-	DefaultPlan   DataPlan
-	AuthErr       error // returned by Auth(mech)
-	AuthPlans     [][]AuthStep // one plan per Auth(mech) call; default: done at once
+	PanicIn        string     // "Mail", "Rcpt", "NewSession": the next such call panics (one shot)
+	DataPlans      []DataPlan // consumed in order by Data begin; default plan when empty
+	DefaultPlan    DataPlan
+	AuthErr        error        // returned by Auth(mech)
+	AuthPlans      [][]AuthStep // one plan per Auth(mech) call; default: done at once
 
 	gates map[string]chan struct{}
 	// Waiting lists the gates some callback is currently blocked on.
